@@ -290,7 +290,7 @@ def main():
             cmd = re.sub(r"/tmp/w\d+/C\d+/out/[A-Z]\b", "%(out)s", cmd)
             cmd = re.sub(r"/tmp/w\d+/C\d+/wt\b", "%(wt)s", cmd)
             cmd = re.sub(r"^\s*cd\s+%\(wt\)s\s*&&\s*", "", cmd)
-            g = re.search(r"\bgo(1\.26\.8)? test [^;&|()]*", cmd)
+            g = re.search(r"\bgo(1\.26\.8)? test [^;&|]*", cmd)
             if g and dest:  # keep only the test invocation (agents wrap it in cp/rm/export, which hides its exit status)
                 cmd = g.group(0).strip()
             if dest: dest = dest.replace(WT + "/", "").strip("/").replace("./", "")
